@@ -193,6 +193,47 @@ func prop(t *rapid.T) {
 	}
 	r := build(c, *o)
 	np := rapid.IntRange(1, 8).Draw(t, "nprobes")
+	type probe struct{ method, path string }
+	var probed []probe
+	defer func() {
+		// lifecycle: a route for ANOTHER method of an existing pattern is registered after these requests were served
+		// (an application that mounts a module late); every earlier request is then resolved again, against the
+		// extended table - nothing remembered from before may stand in the way
+		if t.Failed() || len(probed) == 0 || rapid.IntRange(0, 2).Draw(t, "lateRoute") != 0 {
+			return
+		}
+		base := c.tb.Routes[rapid.IntRange(0, len(c.tb.Routes)-1).Draw(t, "lateBase")]
+		var free []string
+		for _, m := range model.Methods {
+			taken := false // by any route with the same pattern text (no duplicate registrations)
+			for _, d := range c.tb.Routes {
+				if d.P.String() == base.P.String() && d.Allows(m) {
+					taken = true
+				}
+			}
+			if !taken {
+				free = append(free, m)
+			}
+		}
+		if len(free) == 0 || base.P.Raw != "" {
+			return
+		}
+		d := model.RouteDef{P: base.P, Methods: []string{rapid.SampledFrom(free).Draw(t, "lateMethod")}, Idx: len(c.tb.Routes)}
+		c.tb.Routes = append(c.tb.Routes, d)
+		name := d.Name()
+		for _, rr := range []*rux.Router{r, twin} {
+			if rr != nil {
+				model.RegisterOne(rr, d, d.P.String(), func(c *rux.Context) { c.WriteString(name) })
+			}
+		}
+		ev.Class("route-for-another-method-added-after-requests")
+		for _, q := range probed {
+			ev.Eval()
+			if msg := checkProbe(r, c, q.method, q.path); msg != "" {
+				t.Fatalf("after route %s was added: %s", d, msg)
+			}
+		}
+	}()
 	for i := 0; i < np; i++ {
 		path, kind, target, _, _ := model.GenProbePath(t, c.tb.Routes)
 		method := rapid.SampledFrom(append(append([]string{}, model.Methods...), "PURGE")).Draw(t, "method")
@@ -237,6 +278,7 @@ func prop(t *rapid.T) {
 		if msg := checkProbe(r, c, method, path); msg != "" {
 			t.Fatalf("%s", msg)
 		}
+		probed = append(probed, probe{method, path})
 		if twin != nil {
 			if msg := checkIntercept(r, twin, c, method, path); msg != "" {
 				t.Fatalf("%s", msg)
